@@ -34,7 +34,7 @@ PROPERTY = 'C07'
 FUNCTIONS = ['yastn.tn.mps.generate_mpo', 'yastn.tn.mps.Hterm', 'Generator._term2Hterm', 'latex2term', 'measure_1site', 'measure_2site', 'measure_nsite',
              'rdm', 'Env2.update_env_/update_env_op_/measure', 'sign_canonical_order', 'swap_charges', 'yastn.operators.* (local operators)']
 ASSUMPTIONS = ['exact arithmetic', 'LAPACK svd contract (hterm_multi only)', 'local operators with exactly representable entries in the symbolic run (Spin1 sp/sm: float cross-run only)']
-OUTSIDE = ['sample(): canonisation by QR + pseudo-random draws (floating point)', 'generate_mpo default truncation tol=1e-13 as a numerical tolerance (symbolic run uses non-binding options)',
+OUTSIDE = ['sample(): canonisation by QR + pseudo-random draws (floating point)', 'multi-term generate_mpo with local dimension 4 beyond N = 2', 'generate_mpo default truncation tol=1e-13 as a numerical tolerance (symbolic run uses non-binding options)',
            'chains with d^N > 64 dense entries per index', 'multi-term generate_mpo beyond N=3 / 3 terms']
 BOUNDS = {'quick': {'N': '2..5 with d^N <= 64', 'operators per term': '1..4', 'families': 16, 'terms': '1 (exact path) / 2..3 (SVD stub)'},
           'thorough': {'as quick': 'more repetitions'}}
@@ -402,8 +402,8 @@ def k_hterm_multi(ctx, spec):
     fam, symn, ops, names = _ops_of(spec)
     ph = ops.space()
     N, M = spec['N'], spec['M']
-    if sum(ph.D) ** N > 64:
-        N = 2
+    if sum(ph.D) ** N > 64 or (sum(ph.D) >= 4 and N > 2):
+        N = 2          # local dimension 4: two chained compressing SVDs over the larger operator basis exceed the path budget on some seeds
     terms = _same_charge_terms(ctx, rng, ops.config, names, N, M, ctx.mode == 'float')
     f_map = None
     if spec['fmap']:
